@@ -8,6 +8,7 @@ import (
 	"fmt"
 	"math/rand"
 	"os"
+	"runtime"
 	"sync"
 	"sync/atomic"
 	"time"
@@ -23,6 +24,7 @@ func init() { Drivers["auth"] = drvAuth }
 type AuthScenario struct {
 	ID          string   `json:"id"`
 	Path        string   `json:"path"`
+	Neighbour   string   `json:"neighbour"`
 	First       string   `json:"first"`
 	Pipe        string   `json:"pipe"`
 	Timing      string   `json:"timing"`
@@ -104,13 +106,90 @@ func packFrame(mtype byte, seq int32, method string, body interface{}, stat *erp
 	return w.Bytes()
 }
 
+// two byte tokens of the same length
+const authBytesGood, authBytesBad = "token:VALID:7f3a91c2", "token:WRONG:0000aaaa"
+
+// authNeighbour is another connection of the process, to another peer with a checker of its own: once the observed
+// connection's checker has received its token, the neighbour authenticates with a valid token (a frame of exactly the
+// same layout), and its checker holds its verdict until the observed one has decided.
+func authNeighbour(n int, aRecv, bRecv, aDone chan struct{}) {
+	var once sync.Once
+	srv2 := erpc.NewPeer(erpc.PeerConfig{}, auth.NewCheckerPlugin(func(sess auth.Session, recv auth.RecvOnce) (interface{}, *erpc.Status) {
+		var tok []byte
+		st := recv(&tok)
+		once.Do(func() { close(bRecv) })
+		select {
+		case <-aDone:
+		case <-time.After(time.Second):
+		}
+		if !st.OK() || string(tok) != authBytesGood {
+			return nil, erpc.NewStatus(erpc.CodeUnauthorized, "Unauthorized", "bad token")
+		}
+		return "welcome", nil
+	}))
+	defer srv2.Close()
+	select {
+	case <-aRecv:
+	case <-time.After(time.Second):
+		once.Do(func() { close(bRecv) })
+		return
+	}
+	a2, b2 := Pipe(fmt.Sprintf("NC%d", n), fmt.Sprintf("NS%d", n))
+	go func() {
+		buf := make([]byte, 4096)
+		for {
+			if _, err := a2.Read(buf); err != nil {
+				return
+			}
+		}
+	}()
+	a2.Write(packFrame(erpc.TypeAuthCall, 1, "", []byte(authBytesGood), nil))
+	srv2.ServeConn(b2)
+	once.Do(func() { close(bRecv) })
+	a2.Close()
+}
+
 func runAuth(rec *Rec, sc *AuthScenario, n int, rnd *rand.Rand) {
-	rec.SetTrace(sc.ID, map[string]interface{}{"mode": "auth", "path": sc.Path, "first": sc.First, "pipe": sc.Pipe, "timing": sc.Timing,
+	rec.SetTrace(sc.ID, map[string]interface{}{"mode": "auth", "path": sc.Path, "neighbour": sc.Neighbour, "first": sc.First, "pipe": sc.Pipe, "timing": sc.Timing,
 		"hookpos": sc.HookPos, "hookverdict": sc.HookVerdict, "expestablished": sc.Established})
 	app := NewApp(rec, nil)
 	CurApp = app
+	bytesMode := sc.First == "authgoodbytes" || sc.First == "authbadbytes"
+	aRecv, bRecv, aDone := make(chan struct{}), make(chan struct{}), make(chan struct{})
+	var aOnce sync.Once
+	if sc.Neighbour == "good" {
+		// one processor: the neighbour's reader runs where this connection's reader ran (and finds what that one left
+		// in the processor-local caches of the process)
+		old := runtime.GOMAXPROCS(1)
+		defer runtime.GOMAXPROCS(old)
+		defer aOnce.Do(func() { close(aDone) })
+		go authNeighbour(n, aRecv, bRecv, aDone)
+	}
 	checker := auth.NewCheckerPlugin(func(sess auth.Session, recv auth.RecvOnce) (interface{}, *erpc.Status) {
 		var token string
+		if bytesMode {
+			// a checker that takes its token as bytes, and does something slow between receiving and comparing it
+			var tok []byte
+			if st := recv(&tok); !st.OK() {
+				rec.Emit("AuthFail", "why", "recv", "code", st.Code())
+				return nil, st
+			}
+			if sc.Neighbour == "good" {
+				close(aRecv)
+				select {
+				case <-bRecv:
+				case <-time.After(300 * time.Millisecond):
+					rec.Emit("NeighbourLate")
+				}
+				defer aOnce.Do(func() { close(aDone) })
+			}
+			if string(tok) == authBytesGood {
+				rec.Emit("AuthOK")
+				return "welcome", nil
+			}
+			rec.Emit("AuthFail", "why", "token")
+			return nil, erpc.NewStatus(erpc.CodeUnauthorized, "Unauthorized", "bad token")
+		}
 		if st := recv(&token); !st.OK() {
 			rec.Emit("AuthFail", "why", "recv", "code", st.Code())
 			return nil, st
@@ -165,6 +244,10 @@ func runAuth(rec *Rec, sc *AuthScenario, n int, rnd *rand.Rand) {
 		first = packFrame(erpc.TypeAuthCall, 1, "", "setid-bad", nil)
 	case "authsetidgood":
 		first = packFrame(erpc.TypeAuthCall, 1, "", "setid-good", nil)
+	case "authgoodbytes":
+		first = packFrame(erpc.TypeAuthCall, 1, "", []byte(authBytesGood), nil)
+	case "authbadbytes":
+		first = packFrame(erpc.TypeAuthCall, 1, "", []byte(authBytesBad), nil)
 	case "authundecodable":
 		first = packFrame(erpc.TypeAuthCall, 1, "", []byte("{{{not json"), nil)
 	case "authstatus":
